@@ -324,7 +324,7 @@ fn c13_oracle(cx: &DapCtx, before: &DModel, after: &mut DModel, sym: &Sym, obs: 
         // actually patched is accepted (address choice is C04's subject): use the patch set
         let name = &cx.fns[*k as usize];
         let diff: Vec<u64> = obs["proc"]["text_diff"].as_array().map(|a| a.iter().filter_map(|x| x.as_u64()).collect()).unwrap_or_default();
-        for fu in cx.p.dref.live_funcs().iter().filter(|fu| &fu.name == name) {
+        for fu in cx.p.dref.live_funcs().iter().filter(|fu| fu.name.split('<').next() == Some(name.as_str())) {
             for a in &diff {
                 if fu.ranges.iter().any(|(lo, hi)| lo + cx.p.base <= *a && *a < hi + cx.p.base) && !locs.iter().any(|l| l.0 == *a) {
                     locs.push((*a, None));
